@@ -105,7 +105,7 @@ LScope(layers, i) ==
 (*  [op |-> "base", c, st, th]     th: designated parameter entry or <<0,0,0>> *)
 (*  [op |-> "integrate", a, Z]        Z: set of variables                      *)
 (*  [op |-> "multiply", a, b]                                                  *)
-(*  [op |-> "evidence", a, obs]       obs: function  variable -> value         *)
+(*  [op |-> "evidence", a, obs, ed]   obs: function  variable -> value (/ 2^ed)*)
 (*  [op |-> "concat", args]           args: sequence of pool indices           *)
 (*  [op |-> "conjugate", a]                                                    *)
 (*  [op |-> "differentiate", a, k]                                             *)
@@ -160,7 +160,9 @@ DenTerm(pool, dom, i, x, xn) ==
     [] t.op = "evidence" ->
          DenTerm(pool, dom, t.a,
                  [v \in 1..Len(x) |-> IF v \in DOMAIN t.obs THEN t.obs[v] ELSE x[v]],
-                 [v \in 1..Len(x) |-> IF v \in DOMAIN t.obs THEN NInt(t.obs[v]) ELSE xn[v]])
+                 \* continuous inputs are observed at t.obs[v] / 2^t.ed (t.ed = 0 for discrete ones)
+                 [v \in 1..Len(x) |-> IF v \in DOMAIN t.obs
+                                       THEN NConst(<<DNorm(<<t.obs[v], t.ed>>), DZero>>) ELSE xn[v]])
     [] t.op = "conjugate" ->
          LET ta == DenTerm(pool, dom, t.a, x, xn)
          IN [o \in 1..Len(ta) |-> [u \in 1..Len(ta[o]) |-> NConj(ta[o][u])]]
